@@ -128,6 +128,9 @@ func mkOverlay(work string, timePatch bool) (string, map[string]int) {
 				{`uaTimerDelay = time\.Second \* 5`, "uaTimerDelay = time.Millisecond * 150"}},
 			"session.go": {{`deferredNotificationsTimeout = time\.Second \* 5`, "deferredNotificationsTimeout = time.Millisecond * 150"}},
 			"calls.go":   {{`time\.Duration\(globals\.callEstablishmentTimeout\) \* time\.Second`, "time.Duration(globals.callEstablishmentTimeout) * 10 * time.Millisecond"}},
+			// injected delay points (no-ops unless a scenario arms them, see harness/main/c01fp.go)
+			"topic.go": {{`hub\.unreg <- &topicUnreg\{rcptTo: t\.name\}`, `vfFP("topicTimeoutBeforeUnreg", t.name); hub.unreg <- &topicUnreg{rcptTo: t.name}`}},
+			"hub.go":   {{`h\.topicDel\(topic\)\n\n(\s*)t\.exit <- &shutDown\{reason: reason\}`, "h.topicDel(topic)\n${1}vfFP(\"hubUnregBeforeExit\", topic)\n${1}t.exit <- &shutDown{reason: reason}"}},
 		}
 		for fn, lst := range subs {
 			b, err := os.ReadFile(filepath.Join(srv, fn))
